@@ -137,6 +137,9 @@ def explore(run, tier):
             cases.append(dict(base, data=data[:-n].hex(), mut='truncate'))
             cases.append(dict(base, data=(data + bytes(rng.getrandbits(8) for _ in range(n))).hex(), mut='extend'))
             cases.append(dict(base, data=(data + ' '.encode(codec) * n).hex(), mut='extend'))
+            # bytes that a test for "anything left?" could take for nothing: NUL, the 1014 filler, line ends
+            for fillb in (b'\x00', b'\x40', b'\x0a', b'\xff'):
+                cases.append(dict(base, data=(data + fillb * [1, 3, 40][n - 1]).hex(), mut='extend'))
     # LARGE messages: k of the eleven 3-digit-prefixed elements at (or near) their full 999 bytes — a message is as long as
     # its elements are (the 6000-byte limit belongs to the record layer of IPM files, not to the message format)
     lll = sorted(int(k) for k, fc in pkg.items() if fc['field_type'] == 'LLLVAR')
